@@ -89,4 +89,30 @@ def inj {fl : ℝ → ℝ} (x : ℝ) : RR fl := ⟨x⟩
 /-- a constant critical-value oracle (the external quantile routine returns `c`) -/
 def constCrit {fl : ℝ → ℝ} (c : ℝ) : Crit (RR fl) := fun _ => ⟨c⟩
 
+/-- `f64::max` / `f64::min` on the real carriers are the lattice operations (no rounding is involved) -/
+theorem fmax_val {fl : ℝ → ℝ} (a b : RR fl) : (fmax a b).val = max a.val b.val := by
+  unfold fmax
+  by_cases h : a.val < b.val
+  · simp [h, max_eq_right h.le]
+  · have h' : b.val ≤ a.val := not_lt.mp h
+    simp [h, h', max_eq_left h']
+
+theorem fmin_val {fl : ℝ → ℝ} (a b : RR fl) : (fmin a b).val = min a.val b.val := by
+  unfold fmin
+  by_cases h : b.val < a.val
+  · simp [h, min_eq_right h.le]
+  · have h' : a.val ≤ b.val := not_lt.mp h
+    simp [h, h', min_eq_left h']
+
+/-- in exact arithmetic the clamp of `ci_wilson` is the identity on bounds that are proportions -/
+theorem Proportion.finishWilson_eq_finish (conf : Confidence Rex) (m s : Rex)
+    (hlo : 0 ≤ m.val - s.val) (hhi : m.val + s.val ≤ 1) :
+    Proportion.finishWilson conf m s = Proportion.finish conf m s := by
+  have e1 : fmax (NumOps.sub m s) (NumOps.zero : Rex) = NumOps.sub m s := by
+    apply RR.ext'; rw [fmax_val]; simpa using hlo
+  have e2 : fmin (NumOps.add m s) (NumOps.one : Rex) = NumOps.add m s := by
+    apply RR.ext'; rw [fmin_val]; simpa using hhi
+  cases conf <;> simp only [Proportion.finishWilson, Proportion.finish, e1, e2]
+
+
 end StatsCI
